@@ -136,6 +136,39 @@ func cmdVerify(args []string) {
 			}
 		}
 	}
+	var extra []*Obligation
+	for _, lm := range C.Lemmas {
+		if *only != "" && !strings.Contains(lm.Name, *only) {
+			continue
+		}
+		obs, lerr := VerifyLemma(C, lm)
+		if lerr != "" {
+			fmt.Println("lemma error:", lm.Name, lerr)
+			bad++
+		}
+		extra = append(extra, obs...)
+	}
+	for _, gi := range C.Globals {
+		if *only != "" && !strings.Contains(gi.Name, *only) {
+			continue
+		}
+		obs, gerr := VerifyGlobalInit(P, C, gi)
+		if gerr != "" {
+			fmt.Println("global error:", gi.Name, gerr)
+			bad++
+		}
+		extra = append(extra, obs...)
+	}
+	SolveAll(extra, *out, *timeout, *workers)
+	for _, o := range extra {
+		if *verbose || !o.OK() {
+			fmt.Printf("    %-8s %-7s %5.2fs %-40s %s  [%s]\n", o.Result, o.Solver, o.TimeS, o.Name, o.Pos, o.Desc)
+		}
+		if !o.OK() {
+			bad++
+		}
+	}
+	fmt.Printf("lemmas/globals: %d obligations\n", len(extra))
 	fmt.Printf("total %.1fs\n", time.Since(t0).Seconds())
 	if bad > 0 {
 		os.Exit(1)
